@@ -45,28 +45,39 @@ Theorem C13_gone_once_threaded : forall sched,
   sh_gone s <= 1 /\ (sh_pcI s = SH_IN_DONE -> sh_gone s = 1).
 Proof. exact gone_once_threaded. Qed.
 
-(* --- shutdown terminates.  Full statement (REFUTED for the faithful protocol): no reachable state in
-   which the system is unfinished and no thread can move. *)
-Theorem C13_shutdown_terminates_refuted :
-  let s := run sh_st (sh_step false) sh_witness sh_init in
-  sh_final s = false /\ forall t, enabled sh_st (sh_step false) t s = false.
-Proof. exact shutdown_lost_wakeup. Qed.
-
-(* repaired protocol (clientOutput re-tests cl->state after LOCK(updateMutex), before WAIT): after any
-   schedule the system is finished or can move, and a fixed round-robin continuation finishes it *)
-Theorem C13_shutdown_terminates_partial : forall sched,
+(* --- shutdown terminates.  Baseline = the protocol with notes/fix_C13_1.diff (rfbCloseClient sets
+   state = RFB_SHUTDOWN under updateMutex before the signal, clientOutput re-tests it after LOCK):
+   after any schedule the system is finished or some thread can move, and a fixed round-robin
+   continuation finishes the shutdown. *)
+Theorem C13_shutdown_terminates : forall sched,
   let s := run sh_st (sh_step true) sched sh_init in
   (sh_final s = true \/ exists t, t < 4 /\ enabled sh_st (sh_step true) t s = true) /\
   sh_final (run sh_st (sh_step true) sh_finishing s) = true.
 Proof. intros sched. split; [apply shutdown_never_stuck_repaired | apply shutdown_can_always_finish_repaired]. Qed.
 
-(* --- no use after free through the client iterator.  Faithful: REFUTED by a two-thread schedule. *)
-Theorem C13_no_use_after_free_iter_refuted : it_uaf (run it_st (it_step false) it_witness it_init) = true.
-Proof. exact iterator_use_after_free. Qed.
+(* the protocol of the library WITHOUT that fix: schedule [sh_witness] reaches an unfinished state in which
+   no thread can move (lost wake-up) - finding C13-N1, replayed on the library with a forced schedule *)
+Theorem C13_shutdown_terminates_before_fix_refuted :
+  let s := run sh_st (sh_step false) sh_witness sh_init in
+  sh_final s = false /\ forall t, enabled sh_st (sh_step false) t s = false.
+Proof. exact shutdown_lost_wakeup. Qed.
 
-Theorem C13_no_use_after_free_iter_partial : forall sched,
+(* --- no use after free through the client iterator.  Baseline = the protocol with notes/fix_C13_2.diff
+   (the iterator takes its reference while holding rfbClientListMutex; rfbClientConnectionGone waits for
+   refCount == 0 and unlinks under the same mutex): no schedule touches freed memory, and the teardown
+   still completes. *)
+Theorem C13_no_use_after_free_iter : forall sched,
   it_uaf (run it_st (it_step true) sched it_init) = false.
 Proof. exact iterator_safe_when_ref_taken_under_list_mutex. Qed.
+
+Theorem C13_iter_teardown_completes : forall sched,
+  let z := run it_st (it_step true) it_finishing (run it_st (it_step true) sched it_init) in
+  it_freed z = true /\ it_uaf z = false.
+Proof. exact iterator_repaired_teardown_completes. Qed.
+
+(* WITHOUT the fix: finding C13-N2, two-thread schedule [it_witness] *)
+Theorem C13_no_use_after_free_iter_before_fix_refuted : it_uaf (run it_st (it_step false) it_witness it_init) = true.
+Proof. exact iterator_use_after_free. Qed.
 
 (* --- threads reclaimed: REFUTED - after n connect/disconnect cycles n ended client threads have never
    been joined, and rfbShutdownServer does not join them either (for every n) *)
